@@ -23,8 +23,13 @@ Args(n) == [i \in 1..n |-> ArgOf(i)]
 \* an explicit null is an argument like any other: it is bound, the default is not used
 ArgsNullLast(n) == [i \in 1..n |-> IF i = n THEN Lit(Null) ELSE ArgOf(i)]
 ArgsUndefLast(n) == [i \in 1..n |-> IF i = n THEN Var("nosuchvar") ELSE ArgOf(i)]
-ArgsOf(c) == IF "argstyle" \notin DOMAIN c \/ c.argstyle = "plain" THEN Args(c.n)
-             ELSE IF c.argstyle = "nulllast" THEN ArgsNullLast(c.n) ELSE ArgsUndefLast(c.n)
+\* an argument that is itself a macro call (the helper hh, reached the same way as the macro): every argument keeps its own value
+HelperCall(form, as) == CASE form \in {"self", "selfshadow"} -> MCall("_self", "hh", as) [] form = "import" -> MCall("L", "hh", as) [] OTHER -> Call("hh", as)
+ArgsNested(n, form, pos) == [i \in 1..n |-> IF (pos = "last" /\ i = n) \/ (pos = "first" /\ i = 1) \/ pos = "all" THEN HelperCall(form, <<ArgOf(i)>>) ELSE ArgOf(i)]
+ArgsOfF(c, form) == IF "argstyle" \notin DOMAIN c \/ c.argstyle = "plain" THEN Args(c.n)
+             ELSE IF c.argstyle = "nulllast" THEN ArgsNullLast(c.n) ELSE IF c.argstyle = "undeflast" THEN ArgsUndefLast(c.n)
+             ELSE IF c.argstyle = "nestedlast" THEN ArgsNested(c.n, form, "last") ELSE IF c.argstyle = "nestedfirst" THEN ArgsNested(c.n, form, "first")
+             ELSE ArgsNested(c.n, form, "all")
 
 BodyKinds == {"print", "sets", "nested"}
 \* a body reads only its own parameters and what it assigns itself (whether it may
@@ -88,7 +93,7 @@ Site(c, form, callStmts) ==
       [] c.site = "childblock" -> <<Block("bb", callStmts)>>
 
 Tp(c, form) ==
-    LET ce == CallExpr(MName(c), form, ArgsOf(c))
+    LET ce == CallExpr(MName(c), form, ArgsOfF(c, form))
         \* use = "expr": the call inside larger expressions means the text it renders
         call == IF "use" \in DOMAIN c /\ c.use = "expr"
                 THEN <<PrintS(Filt("upper", ce, <<>>)), PrintS(Bin("~", ce, LS(<<122>>))), Set("q", ce), PrintS(Var("q")), PrintS(Filt("length", ce, <<>>))>>
@@ -109,11 +114,12 @@ Tp(c, form) ==
 \* property does not say which imports a macro body sees)
 \* (a macro of a library sees the library's other macros: "nested" bodies by every route; which imports the body of a
 \* macro of the calling template sees is not stated: site "macro" only in the local form)
-FormApplies(c, form) == (c.site = "macro") => form = "local"
+FormApplies(c, form) == /\ (c.site = "macro") => form = "local"
+                        /\ (c.argstyle \in {"nestedlast", "nestedfirst", "nestedall"}) => form \in {"local", "self", "import", "localshadow", "selfshadow"}
 
 Cases == {[ar |-> ar, defs |-> defs, n |-> n, bk |-> bk, site |-> site, argstyle |-> st]
             : ar \in 0..MaxArity, defs \in SUBSET (1..MaxArity), n \in 0..(MaxArity + 1), bk \in BodyKinds, site \in Sites,
-              st \in {"plain", "nulllast", "undeflast"}}
+              st \in {"plain", "nulllast", "undeflast", "nestedlast", "nestedfirst", "nestedall"}}
 \* macros named like built-in functions; defaults that are spy calls, the macro called several times (loop) and in two renders
 NamedCases == {[ar |-> 2, defs |-> {2}, n |-> n, bk |-> "print", site |-> site, argstyle |-> "plain", mn |-> mn]
                  : n \in 0..3, site \in {"top", "loop", "include"}, mn \in {"max", "range", "min", "date", "length"}}
@@ -122,7 +128,8 @@ SpyDefCases == {[ar |-> ar, defs |-> defs, n |-> n, bk |-> "print", site |-> sit
 ExprCases == {[ar |-> 1, defs |-> {}, n |-> 1, bk |-> bk, site |-> site, argstyle |-> "plain", use |-> "expr"]
                 : bk \in {"print", "nested"}, site \in {"top", "loop", "block", "childblock"}}
 Valid(c) == /\ c.defs \subseteq 1..c.ar /\ c.n <= c.ar + 1 /\ (c.bk = "nested" => c.ar >= 1)
-            /\ (c.argstyle # "plain" => c.n >= 1 /\ c.n <= c.ar /\ c.bk = "print" /\ c.site \in {"top", "loop"})
+            /\ (c.argstyle \in {"nulllast", "undeflast"} => c.n >= 1 /\ c.n <= c.ar /\ c.bk = "print" /\ c.site \in {"top", "loop"})
+            /\ (c.argstyle \in {"nestedlast", "nestedfirst", "nestedall"} => c.n >= 2 /\ c.n <= c.ar /\ c.bk \in {"print", "nested"} /\ c.site \in {"top", "loop", "block", "macro", "include"})
 
 Ctx == ("a" :> VI(1)) @@ ("x" :> VI(5))
 World(tp) == MkW(tp, {}, {}, NoFault)
